@@ -119,14 +119,18 @@ pub fn emit_case<P: KS>(out: &mut Out, seq: &[u8], k: usize, score: &dyn Fn(&P) 
     let r = run_scan::<P>(seq, k, score, container);
     out.nt = r.as_ref().map(|v| v.len() >= 2).unwrap_or(false);
     let ivs = r.as_ref().map(|v| l(v.iter().map(iv_v).collect()));
-    if model_line {
+    let huge0 = seq.len() > 10000 && r.as_ref().map(|v| v.len() > 64).unwrap_or(false);
+    if model_line || huge0 {
         out.case(
             "scan.scan",
             l(vec![dna(seq), nu(k), nu(p), l(scores.clone())]),
             opt(ivs.clone()),
         );
     }
-    if let Some(ivs) = ivs {
+    // (the checker is quadratic in unary positions: on a 65536-base case with thousands of intervals - which
+    // only a defect can produce - it is skipped and the model line decides)
+    let huge = seq.len() > 10000 && r.as_ref().map(|v| v.len() > 64).unwrap_or(false);
+    if let (Some(ivs), false) = (ivs, huge) {
         out.case(chk_op, l(vec![dna(seq), nu(k), nu(p), l(scores), ivs]), n(1u8));
     }
     out.nt = false;
